@@ -8,6 +8,13 @@ LAST.  For ANY sub-collection `W` of those node records that has reached the dat
 any order, any subset), every node that existed before reads — as of epoch `e` — exactly as it did
 before (modulo the `parent` field, which no proof reads); once everything is written the new tree is
 there.
+
+`ReprRoot` and `AtEpoch` say nothing about records the database may hold under keys the tree does not
+use, nor that a record is stored under its node's label (the model's `NodeMap` does not enforce it);
+three statements needed the corresponding hypothesis (each with a counterexample run on the
+executable model): `partial_commit_invisible` is for the keys of the nodes of `t` (`nodeKeys`; the
+all-keys form `partial_commit_invisible_all` assumes the database holds nothing else),
+`full_commit_visible` assumes `AtEpoch` before the publish, `new_keys_invisible` assumes `WellKeyed`.
 -/
 import AkdModel.Insert
 import AkdModel.Thm.C01b
@@ -30,7 +37,35 @@ def applyWrites (db : NodeMap) (W : List NodeRec) : NodeMap := W.foldl NodeMap.s
 /-- every record in the database is of an epoch `≤ e` -/
 def AtEpoch (db : NodeMap) (e : Nat) : Prop := ∀ k r, db.get? k = some r → r.latest.lastEpoch ≤ e
 
-/-- **partial commits are invisible at the previous epoch** -/
+/-- the labels of the nodes of a (sub-)tree -/
+def treeLabels : CTree → List BitStr
+  | .leaf q _ _ => [q]
+  | .node q l r => q :: (treeLabels l ++ treeLabels r)
+
+/-- the storage keys of the nodes of `t`: the root and every node of its sub-trees -/
+def nodeKeys (t : CRoot) : List NodeLabel :=
+  NodeLabel.root ::
+    (((t.l.map treeLabels).getD [] ++ (t.r.map treeLabels).getD []).map NodeLabel.ofBits)
+
+theorem treeLabels_eq : ∀ t : CTree, treeLabels t = Part.lbls t
+  | .leaf _ _ _ => rfl
+  | .node _ l r => by simp only [treeLabels, Part.lbls, treeLabels_eq l, treeLabels_eq r]
+
+theorem nodeKeys_rootK {t : CRoot} {k : NodeLabel} (h : k ∈ nodeKeys t) :
+    ∃ q, Part.RootK t q ∧ k = NodeLabel.ofBits q := by
+  simp only [nodeKeys, List.mem_cons, List.mem_map] at h
+  rcases h with rfl | ⟨q, hq, rfl⟩
+  · exact ⟨[], .inl rfl, Ins.ofBits_nil.symm⟩
+  · refine ⟨q, .inr ?_, rfl⟩
+    have e : ∀ o : Option CTree, (o.map treeLabels).getD [] = Part.olbls o := by
+      intro o; cases o <;> simp [Part.olbls, treeLabels_eq]
+    rwa [e, e] at hq
+
+/-- **partial commits are invisible at the previous epoch**
+
+(statement change: the conclusion is for the keys of the nodes of `t` (`hk`), not for every key of the
+database — a stray record that sits in the database under a key the tree does not use, e.g. the label
+of an interior node this very batch creates, is overwritten by a record that starts at the new epoch) -/
 theorem partial_commit_invisible (c : Cfg) (hc : c.emptyLabel.len = 0)
     (s : NodeStore) (a : Azks) (t : CRoot)
     (hidle : s.inTxn = false ∧ s.log = [])
@@ -43,9 +78,42 @@ theorem partial_commit_invisible (c : Cfg) (hc : c.emptyLabel.len = 0)
     (s' : NodeStore) (a' : Azks)
     (hins : s.begin.batchInsert c .directory a (els.map fun x => (NodeLabel.ofBits x.1, x.2)) = .ok (s', a'))
     (W : List NodeRec) (hW : ∀ r ∈ W, ∃ k, s'.log.get? k = some r) :
-    ∀ k, (s.db.get? k).isSome →
+    ∀ k, k ∈ nodeKeys t → (s.db.get? k).isSome →
       viewAt (applyWrites s.db W) a.latestEpoch k = viewAt s.db a.latestEpoch k := by
-  sorry
+  obtain ⟨hlog, hcore⟩ := Part.partial_core c hc s a t hidle hrep hwf hat hep els hpf hlen s' a' hins
+  intro k hk hsome
+  obtain ⟨q, hq, rfl⟩ := nodeKeys_rootK hk
+  cases hd : s.db.get? (NodeLabel.ofBits q) with
+  | none => rw [hd] at hsome; cases hsome
+  | some r =>
+    unfold viewAt applyWrites
+    rcases Part.foldl_set_get W s.db (NodeLabel.ofBits q) with h | ⟨r', hr', hl, h⟩
+    · rw [h]
+    · obtain ⟨k', hk'⟩ := hW r' hr'
+      have hkey : k' = r'.label := hlog.2.1 (k', r') (Part.get?_mem _ _ _ hk')
+      rw [hkey, hl] at hk'
+      obtain ⟨n, hn, he⟩ := hcore q r' r hq hk' hd
+      rw [h, hd]
+      simp only [hn, Part.resolve_ok_latest r _ (hat _ r hd), he]
+
+/-- the form for a database that holds nothing but the nodes of the tree: every key of the database -/
+theorem partial_commit_invisible_all (c : Cfg) (hc : c.emptyLabel.len = 0)
+    (s : NodeStore) (a : Azks) (t : CRoot)
+    (hidle : s.inTxn = false ∧ s.log = [])
+    (hrep : ReprRoot c .directory s t) (hwf : t.WF)
+    (hat : AtEpoch s.db a.latestEpoch)
+    (hdom : ∀ k, (s.db.get? k).isSome → k ∈ nodeKeys t)
+    (hep : ∀ lf ∈ t.leaves, 1 ≤ lf.ep ∧ lf.ep ≤ a.latestEpoch)
+    (els : List (BitStr × Dig))
+    (hpf : PrefixFree (t.leaves ++ newLeaves els (a.latestEpoch + 1)))
+    (hlen : ∀ lf ∈ t.leaves ++ newLeaves els (a.latestEpoch + 1), 1 ≤ lf.lbl.length ∧ lf.lbl.length ≤ 256)
+    (s' : NodeStore) (a' : Azks)
+    (hins : s.begin.batchInsert c .directory a (els.map fun x => (NodeLabel.ofBits x.1, x.2)) = .ok (s', a'))
+    (W : List NodeRec) (hW : ∀ r ∈ W, ∃ k, s'.log.get? k = some r) :
+    ∀ k, (s.db.get? k).isSome →
+      viewAt (applyWrites s.db W) a.latestEpoch k = viewAt s.db a.latestEpoch k :=
+  fun k hk => partial_commit_invisible c hc s a t hidle hrep hwf hat hep els hpf hlen s' a' hins W hW k
+    (hdom k hk) hk
 
 /-- the database itself is not touched before the commit -/
 theorem insert_in_txn_keeps_db (c : Cfg) (m : InsertMode) (s : NodeStore) (a : Azks)
